@@ -22,6 +22,11 @@ def run_case(exe, rundir, case, timeout=60, keep=False):
             f.write(case["nl_bytes"])
     if case.get("mk_sol_dir"):          # make the result path unwritable (works for root too)
         os.makedirs(stub + ".sol")
+    if case.get("sol_symlink"):         # result path that opens but cannot be written (e.g. /dev/full)
+        os.symlink(case["sol_symlink"], stub + ".sol")
+    for name, txt in case.get("extra_files", {}).items():
+        with open(os.path.join(d, name), "w") as f:
+            f.write(txt)
     for ext, txt in case.get("files", {}).items():
         with open(stub + ext, "w", newline="") as f:
             f.write(txt)
